@@ -452,4 +452,393 @@ theorem sum_filterMap_le (f : Nat → Nat) (fe : Entry → Nat) (X : List Nat) (
 
 end pkg
 
+
+/-! ### `update_modified_entries` -/
+
+section upd
+variable {v : View}
+
+def Closed (v : View) (F : List Nat) : Prop := ∀ id ∈ F, ∀ a ∈ v.anc id, a ∈ F
+
+/-- occupants of `modified_entries` while the package is folded in: `F` = fetched before the
+    package, `F'` = fetched after it, `G` = package ids already processed -/
+def ModOk (v : View) (F F' G : List Nat) (m : Mod) : Prop :=
+  ∀ e ∈ m, Good v e ∧ e.id ∉ F' ∧ (AggGe v → Covers v (G ++ F) e)
+
+theorem covers_subAnc {X : List Nat} {e p : Entry} (hnd : (v.anc e.id).Nodup)
+    (hp : p.id ∈ v.anc e.id) (hX : p.id ∉ X) (hpg : Good v p) (hc : Covers v X e) :
+    Covers v (p.id :: X) (e.subAnc p) := by
+  obtain ⟨h1, h2⟩ := hc
+  rw [restSum_cons_mem v.sizeOf X _ p.id hnd hp hX] at h1
+  rw [restSum_cons_mem v.cyclesOf X _ p.id hnd hp hX] at h2
+  obtain ⟨_, hs, hcy⟩ := hpg
+  show e.size + restSum v.sizeOf (p.id :: X) (v.anc e.id) ≤ e.ancSize - p.size ∧
+       e.cycles + restSum v.cyclesOf (p.id :: X) (v.anc e.id) ≤ e.ancCycles - p.cycles
+  omega
+
+def updStep (v : View) (keys : List Nat) (p : Entry) (m : Mod) (d : Nat) : Mod :=
+  if keys.contains d || !v.hasProposed d then m else
+    match m.get d with
+    | some old => (m.remove d).insert (old.subAnc p)
+    | none =>
+      match v.get d with
+      | some pe => m.insert (pe.e.subAnc p)
+      | none => m
+
+theorem updateOne_eq (keys : List Nat) (m : Mod) (p : Entry) :
+    updateOne v keys m p = (v.desc p.id).foldl (updStep v keys p) m := rfl
+
+theorem updStep_fold (hL : LinksOk v) (F F' G K : List Nat) (p : Entry)
+    (hpGood : Good v p) (hpF : p.id ∉ G ++ F) (hclosed : Closed v F)
+    (hF' : ∀ a, a ∈ F' → a ∈ K ∨ a ∈ F)
+    (ds : List Nat) (hds : ds.Nodup) (hsub : ∀ d ∈ ds, d ∈ v.desc p.id) (m : Mod)
+    (hm : ∀ e ∈ m, Good v e ∧ e.id ∉ F' ∧
+      (AggGe v → (e.id ∈ ds → Covers v (G ++ F) e) ∧ (e.id ∉ ds → Covers v (p.id :: (G ++ F)) e))) :
+    ModOk v F F' (p.id :: G) (ds.foldl (updStep v K p) m) := by
+  obtain ⟨_, hancnd, _, _, hdescanc, _⟩ := hL
+  have hpid : p.id ∈ v.ids := hasProposed_mem_ids hpGood.1
+  induction ds generalizing m with
+  | nil =>
+    intro e he
+    obtain ⟨h1, h2, h3⟩ := hm e he
+    exact ⟨h1, h2, fun hagg => ((h3 hagg).2 (by simp))⟩
+  | cons d ds ih =>
+    simp only [List.nodup_cons] at hds
+    simp only [List.foldl_cons]
+    apply ih hds.2 (fun x hx => hsub x (List.mem_cons_of_mem _ hx))
+    -- the invariant after processing `d`
+    have hkeep : ∀ e ∈ m, e.id ≠ d ∨ True → Good v e ∧ e.id ∉ F' ∧
+        (AggGe v → (e.id ∈ ds → Covers v (G ++ F) e) ∧ (e.id ∉ ds → e.id ≠ d → Covers v (p.id :: (G ++ F)) e)) := by
+      intro e he _
+      obtain ⟨h1, h2, h3⟩ := hm e he
+      refine ⟨h1, h2, fun hagg => ⟨fun hin => (h3 hagg).1 (List.mem_cons_of_mem _ hin), fun hnin hne => (h3 hagg).2 ?_⟩⟩
+      simp only [List.mem_cons, not_or]; exact ⟨hne, hnin⟩
+    have hcov_d : ∀ e ∈ m, e.id = d → AggGe v → Covers v (G ++ F) e := by
+      intro e he hid hagg
+      exact ((hm e he).2.2 hagg).1 (by simp [hid])
+    have hpanc : p.id ∈ v.anc d := hdescanc p.id hpid d (hsub d List.mem_cons_self)
+    unfold updStep
+    split
+    · -- skipped: unchanged
+      intro e he
+      obtain ⟨h1, h2, h3⟩ := hkeep e he (Or.inr trivial)
+      refine ⟨h1, h2, fun hagg => ⟨(h3 hagg).1, fun hnin => ?_⟩⟩
+      by_cases hed : e.id = d
+      · exact (hcov_d e he hed hagg).mono (fun a ha => List.mem_cons_of_mem _ ha)
+      · exact (h3 hagg).2 hnin hed
+    · rename_i hcond
+      have hdK : d ∉ K := by
+        intro h; apply hcond; simp [h]
+      have hdprop : v.hasProposed d = true := by
+        cases hh : v.hasProposed d with
+        | true => rfl
+        | false => exact absurd (by simp [hh]) hcond
+      have hdid : d ∈ v.ids := hasProposed_mem_ids hdprop
+      split
+      · -- an occupant is replaced
+        rename_i old hold
+        obtain ⟨holdm, holdid⟩ := Mod.get_some hold
+        intro e he
+        rcases List.mem_cons.mp he with rfl | he
+        · obtain ⟨g1, g2, _⟩ := hm old holdm
+          refine ⟨g1.subAnc, g2, fun hagg => ⟨fun hin => ?_, fun _ => ?_⟩⟩
+          · exact absurd (show d ∈ ds from holdid ▸ hin) hds.1
+          · have hc := hcov_d old holdm holdid hagg
+            exact covers_subAnc (by rw [holdid]; exact hancnd d hdid) (by rw [holdid]; exact hpanc) hpF hpGood hc
+        · obtain ⟨hem, hne⟩ := Mod.mem_remove.mp he
+          obtain ⟨h1, h2, h3⟩ := hkeep e hem (Or.inr trivial)
+          exact ⟨h1, h2, fun hagg => ⟨(h3 hagg).1, fun hnin => (h3 hagg).2 hnin hne⟩⟩
+      · rename_i hnone
+        have hnoocc := Mod.get_none hnone
+        split
+        · -- a fresh copy of the pool entry enters
+          rename_i pe hpe
+          have hpeid := get_id hpe
+          intro e he
+          rcases List.mem_cons.mp he with rfl | he
+          · have hgood : Good v pe.e := good_of_get hpe hdprop
+            refine ⟨hgood.subAnc, ?_, fun hagg => ⟨fun hin => ?_, fun _ => ?_⟩⟩
+            · show pe.e.id ∉ F'
+              rw [hpeid]
+              intro hin
+              rcases hF' d hin with h | h
+              · exact hdK h
+              · exact hpF (List.mem_append_right _ (hclosed d h p.id hpanc))
+            · exact absurd (show d ∈ ds from hpeid ▸ hin) hds.1
+            · have hc : Covers v (G ++ F) pe.e := (covers_of_pool hagg (get_mem hpe)).mono (by simp)
+              exact covers_subAnc (by rw [hpeid]; exact hancnd d hdid) (by rw [hpeid]; exact hpanc) hpF hpGood hc
+          · obtain ⟨h1, h2, h3⟩ := hkeep e he (Or.inr trivial)
+            exact ⟨h1, h2, fun hagg => ⟨(h3 hagg).1, fun hnin => (h3 hagg).2 hnin (hnoocc e he)⟩⟩
+        · intro e he
+          obtain ⟨h1, h2, h3⟩ := hkeep e he (Or.inr trivial)
+          exact ⟨h1, h2, fun hagg => ⟨(h3 hagg).1, fun hnin => (h3 hagg).2 hnin (hnoocc e he)⟩⟩
+
+theorem updateModified_ok (hL : LinksOk v) (F F' K : List Nat) (hclosed : Closed v F)
+    (hF' : ∀ a, a ∈ F' → a ∈ K ∨ a ∈ F)
+    (ps : List Entry) (G : List Nat) (hnd : (ps.map (·.id)).Nodup)
+    (hps : ∀ p ∈ ps, Good v p ∧ p.id ∉ G ∧ p.id ∉ F) (m : Mod) (hm : ModOk v F F' G m) :
+    ModOk v F F' ((ps.map (·.id)).reverse ++ G) (ps.foldl (updateOne v K) m) := by
+  induction ps generalizing G m with
+  | nil => simpa using hm
+  | cons p ps ih =>
+    simp only [List.map_cons, List.nodup_cons] at hnd
+    obtain ⟨hg, hpG, hpF⟩ := hps p List.mem_cons_self
+    have hpid : p.id ∈ v.ids := hasProposed_mem_ids hg.1
+    have hstep : ModOk v F F' (p.id :: G) (updateOne v K m p) := by
+      rw [updateOne_eq]
+      apply updStep_fold hL F F' G K p hg (by simp [hpG, hpF]) hclosed hF' _ (hL.2.2.2.2.2 p.id hpid) (fun d hd => hd)
+      intro e he
+      obtain ⟨h1, h2, h3⟩ := hm e he
+      exact ⟨h1, h2, fun hagg => ⟨fun _ => h3 hagg, fun _ => (h3 hagg).mono (fun a ha => List.mem_cons_of_mem _ ha)⟩⟩
+    have := ih (p.id :: G) hnd.2 (fun q hq => by
+      obtain ⟨q1, q2, q3⟩ := hps q (List.mem_cons_of_mem _ hq)
+      refine ⟨q1, ?_, q3⟩
+      simp only [List.mem_cons, not_or]
+      refine ⟨?_, q2⟩
+      intro heq
+      exact hnd.1 (heq ▸ List.mem_map_of_mem hq)) (updateOne v K m p) hstep
+    simpa using this
+
+end upd
+
+
+/-! ### the loop invariant -/
+
+structure Inv (v : View) (sl cl : Nat) (s : St) : Prop where
+  sizeEq : s.size = (s.out.map (·.size)).sum
+  cyclesEq : s.cycles = (s.out.map (·.cycles)).sum
+  outFetched : ∀ e ∈ s.out, e.id ∈ s.fetched
+  fetchedOut : ∀ id ∈ s.fetched, id ∈ s.out.map (·.id)
+  nodup : (s.out.map (·.id)).Nodup
+  outGood : ∀ e ∈ s.out, Good v e
+  closed : Closed v s.fetched
+  iterGood : ∀ e ∈ s.iter, Good v e ∧ (AggGe v → Covers v [] e)
+  modGood : ∀ e ∈ s.mod, Good v e ∧ e.id ∉ s.fetched ∧ (AggGe v → Covers v s.fetched e)
+  limits : AggGe v → s.size ≤ sl ∧ s.cycles ≤ cl
+
+section step
+variable {v : View} {sl cl : Nat}
+
+theorem Inv.fail {s : St} (h : Inv v sl cl s) (iter' : List Entry) (hsub : ∀ e ∈ iter', e ∈ s.iter)
+    (tx : Entry) (u : Bool) : Inv v sl cl (fail s iter' tx u).1 := by
+  unfold Selector.fail
+  cases u with
+  | false =>
+    exact { h with iterGood := fun e he => h.iterGood e (hsub e he) }
+  | true =>
+    exact { h with iterGood := fun e he => h.iterGood e (hsub e he),
+                   modGood := fun e he => h.modGood e (Mod.mem_remove.mp he).1 }
+
+theorem Inv.body (hL : LinksOk v) {s : St} (h : Inv v sl cl s) (tx : Entry) (u : Bool) (iter' : List Entry)
+    (hsub : ∀ e ∈ iter', e ∈ s.iter) (htxG : Good v tx) (htxF : tx.id ∉ s.fetched)
+    (htxC : AggGe v → Covers v s.fetched tx) :
+    Inv v sl cl (step.body v sl cl s tx u iter').1 := by
+  unfold step.body
+  split
+  · exact h.fail iter' hsub tx u
+  · rename_i hadm
+    split
+    · exact h.fail iter' hsub tx u
+    · rename_i hallp
+      have hall : ∀ a ∈ v.anc tx.id, v.hasProposed a = true := by
+        intro a ha
+        cases hh : v.hasProposed a with
+        | true => rfl
+        | false =>
+          exfalso; apply hallp
+          rw [List.any_eq_true]
+          exact ⟨a, ha, by simp [hh]⟩
+      obtain ⟨hidnd, hancnd, hancids, htrans, hdescanc, hdescnd⟩ := hL
+      have htxid : tx.id ∈ v.ids := hasProposed_mem_ids htxG.1
+      have hnd := package_nodup (s := s) (hancnd tx.id htxid)
+      -- facts about the members of the package
+      have hmem : ∀ x ∈ package v s tx, Good v x ∧ x.id ∉ s.fetched ∧ (x.id = tx.id ∨ x.id ∈ v.anc tx.id) := by
+        intro x hx
+        rcases package_mem hx with rfl | hx
+        · exact ⟨htxG, htxF, Or.inl rfl⟩
+        · obtain ⟨h1, h2, h3⟩ := ancEntries_mem hx
+          refine ⟨?_, h2, Or.inr h1⟩
+          rcases (retrieve_some h3).2 with hm | ⟨pe, hg, hp, rfl⟩
+          · exact (h.modGood x hm).1
+          · exact good_of_get hg (hall _ h1)
+      have hnew : ∀ x ∈ package v s tx, x.id ∉ ({ s with iter := iter' } : St).fetched :=
+        fun x hx => (hmem x hx).2.1
+      simp only []
+      rw [foldl_push_eq _ _ hnew hnd]
+      simp only []
+      -- names
+      let pkg := package v s tx
+      let K := pkg.map (·.id)
+      have hF' : ∀ a, a ∈ K.reverse ++ s.fetched → a ∈ K ∨ a ∈ s.fetched := by
+        intro a ha
+        rcases List.mem_append.mp ha with h1 | h1
+        · exact Or.inl (List.mem_reverse.mp h1)
+        · exact Or.inr h1
+      have hm0 : ModOk v s.fetched (K.reverse ++ s.fetched) []
+          (pkg.foldl (fun m x => Mod.remove m x.id) s.mod) := by
+        intro e he
+        obtain ⟨h1, h2⟩ := mem_foldl_remove he
+        obtain ⟨g1, g2, g3⟩ := h.modGood e h1
+        refine ⟨g1, ?_, fun hagg => by simpa using g3 hagg⟩
+        intro hin
+        rcases hF' _ hin with h3 | h3
+        · exact h2 h3
+        · exact g2 h3
+      have hupd := updateModified_ok ⟨hidnd, hancnd, hancids, htrans, hdescanc, hdescnd⟩
+        s.fetched (K.reverse ++ s.fetched) K h.closed hF' pkg [] hnd
+        (fun p hp => ⟨(hmem p hp).1, by simp, (hmem p hp).2.1⟩) _ hm0
+      have hsumS : AggGe v → (pkg.map (·.size)).sum ≤ tx.ancSize ∧ (pkg.map (·.cycles)).sum ≤ tx.ancCycles := by
+        intro hagg
+        obtain ⟨c1, c2⟩ := htxC hagg
+        have hret : ∀ a e, retrieve v s.mod a = some e → e.size = v.sizeOf a ∧ e.cycles = v.cyclesOf a := by
+          intro a e he
+          obtain ⟨hid, hcase⟩ := retrieve_some he
+          rcases hcase with hm | ⟨pe, hg, hp, rfl⟩
+          · have := (h.modGood e hm).1
+            rw [← hid]; exact ⟨this.2.1, this.2.2⟩
+          · simp [View.sizeOf, View.cyclesOf, hg]
+        have s1 := sum_filterMap_le v.sizeOf (·.size) s.fetched (retrieve v s.mod)
+          (fun a e he => (hret a e he).1) (v.anc tx.id)
+        have s2 := sum_filterMap_le v.cyclesOf (·.cycles) s.fetched (retrieve v s.mod)
+          (fun a e he => (hret a e he).2) (v.anc tx.id)
+        have e1 : (pkg.map (·.size)).sum ≤ ((ancEntries v s tx).map (·.size)).sum + tx.size := by
+          show ((package v s tx).map (·.size)).sum ≤ _
+          rw [package_eq, List.map_append, List.sum_append]
+          have := sum_map_filter_le (fun e : Entry => e.id != tx.id) (·.size) (sortBy (countBefore v.tie) (ancEntries v s tx))
+          rw [sum_map_sortBy] at this
+          simp; omega
+        have e2 : (pkg.map (·.cycles)).sum ≤ ((ancEntries v s tx).map (·.cycles)).sum + tx.cycles := by
+          show ((package v s tx).map (·.cycles)).sum ≤ _
+          rw [package_eq, List.map_append, List.sum_append]
+          have := sum_map_filter_le (fun e : Entry => e.id != tx.id) (·.cycles) (sortBy (countBefore v.tie) (ancEntries v s tx))
+          rw [sum_map_sortBy] at this
+          simp; omega
+        unfold ancEntries at e1 e2
+        constructor <;> omega
+      refine
+        { sizeEq := by simp [h.sizeEq, pkg]
+          cyclesEq := by simp [h.cyclesEq, pkg]
+          outFetched := ?_
+          fetchedOut := ?_
+          nodup := ?_
+          outGood := ?_
+          closed := ?_
+          iterGood := fun e he => h.iterGood e (hsub e he)
+          modGood := ?_
+          limits := ?_ }
+      · intro e he
+        rcases List.mem_append.mp he with h1 | h1
+        · exact List.mem_append_right _ (h.outFetched e h1)
+        · exact List.mem_append_left _ (List.mem_reverse.mpr (List.mem_map_of_mem h1))
+      · intro id hid
+        rw [List.map_append, List.mem_append]
+        rcases List.mem_append.mp hid with h1 | h1
+        · exact Or.inr (List.mem_reverse.mp h1)
+        · exact Or.inl (h.fetchedOut id h1)
+      · rw [List.map_append, List.nodup_append]
+        refine ⟨h.nodup, hnd, ?_⟩
+        intro a ha b hb hab
+        subst hab
+        obtain ⟨e, he, rfl⟩ := List.mem_map.mp ha
+        obtain ⟨x, hx, hxe⟩ := List.mem_map.mp hb
+        exact (hmem x hx).2.1 (hxe ▸ h.outFetched e he)
+      · intro e he
+        rcases List.mem_append.mp he with h1 | h1
+        · exact h.outGood e h1
+        · exact (hmem e h1).1
+      · intro id hid a ha
+        rcases List.mem_append.mp hid with h1 | h1
+        · have h1 := List.mem_reverse.mp h1
+          obtain ⟨x, hx, rfl⟩ := List.mem_map.mp h1
+          have hanc : a ∈ v.anc tx.id := by
+            rcases (hmem x hx).2.2 with heq | hin
+            · rw [← heq]; exact ha
+            · exact htrans tx.id htxid x.id hin a ha
+          rcases package_covers_anc (s := s) hall a hanc with h2 | h2
+          · exact List.mem_append_right _ h2
+          · exact List.mem_append_left _ (List.mem_reverse.mpr h2)
+        · exact List.mem_append_right _ (h.closed id h1 a ha)
+      · intro e he
+        obtain ⟨g1, g2, g3⟩ := hupd e he
+        exact ⟨g1, g2, fun hagg => by simpa using g3 hagg⟩
+      · intro hagg
+        obtain ⟨l1, l2⟩ := h.limits hagg
+        obtain ⟨a1, a2⟩ := hsumS hagg
+        simp only [Bool.or_eq_true, decide_eq_true_eq, not_or, Nat.not_lt] at hadm
+        show s.size + (pkg.map (·.size)).sum ≤ sl ∧ s.cycles + (pkg.map (·.cycles)).sum ≤ cl
+        constructor <;> omega
+
+theorem Inv.step (hL : LinksOk v) {s : St} (h : Inv v sl cl s) : Inv v sl cl (step v sl cl s).1 := by
+  unfold Selector.step
+  split
+  · rename_i e rest hit
+    split
+    · exact { h with iterGood := fun x hx => h.iterGood x (by rw [hit]; exact List.mem_cons_of_mem _ hx) }
+    · rename_i hskip
+      have heF : e.id ∉ s.fetched := by
+        intro hin; apply hskip; simp [St.skip, hin]
+      obtain ⟨heG, heC⟩ := h.iterGood e (by rw [hit]; exact List.mem_cons_self)
+      have hsub_rest : ∀ x ∈ rest, x ∈ s.iter := fun x hx => by rw [hit]; exact List.mem_cons_of_mem _ hx
+      have he_body := h.body hL e false rest hsub_rest heG heF (fun hagg => (heC hagg).mono (by simp))
+      cases hbm : Mod.best v.tie s.mod with
+      | none =>
+        simp only []
+        exact he_body
+      | some bm =>
+        obtain ⟨g1, g2, g3⟩ := h.modGood bm (Mod.best_mem hbm)
+        by_cases hgt : (Key.cmp bm.key e.key == Ordering.gt) = true
+        · simp only [hgt, if_true]
+          exact h.body hL bm true s.iter (fun x hx => hx) g1 g2 g3
+        · simp only [hgt]
+          exact he_body
+  · rename_i hit
+    cases hbm : Mod.best v.tie s.mod with
+    | none => exact h
+    | some bm =>
+      obtain ⟨g1, g2, g3⟩ := h.modGood bm (Mod.best_mem hbm)
+      exact h.body hL bm true [] (fun x hx => by simp at hx) g1 g2 g3
+
+theorem Inv.run (hL : LinksOk v) (fuel : Nat) {s : St} (h : Inv v sl cl s) : Inv v sl cl (run v sl cl fuel s) := by
+  induction fuel generalizing s with
+  | zero => exact h
+  | succ n ih =>
+    unfold Selector.run
+    have hs := h.step hL
+    split
+    · rename_i s' heq
+      rw [heq] at hs
+      exact ih hs
+    · rename_i s' heq
+      rw [heq] at hs
+      exact hs
+
+theorem mem_sortedProposed {e : Entry} (h : e ∈ v.sortedProposed sl cl) :
+    ∃ pe ∈ v.ents, pe.proposed = true ∧ pe.e = e := by
+  unfold View.sortedProposed at h
+  obtain ⟨p, hp, rfl⟩ := List.mem_map.mp h
+  obtain ⟨hp1, hp2⟩ := List.mem_filter.mp hp
+  rw [mem_sortBy] at hp1
+  have hmem : p.1 ∈ v.ents := by
+    have := List.mem_zipIdx (x := p.1) (i := p.2) (k := 0) hp1
+    obtain ⟨_, hlt, heq⟩ := this
+    rw [heq]; exact List.getElem_mem _
+  simp only [Bool.and_eq_true] at hp2
+  exact ⟨p.1, hmem, hp2.1, rfl⟩
+
+theorem Inv.init (hL : LinksOk v) : Inv v sl cl (initSt v sl cl) := by
+  refine
+    { sizeEq := by simp [initSt], cyclesEq := by simp [initSt]
+      outFetched := by simp [initSt], fetchedOut := by simp [initSt]
+      nodup := by simp [initSt], outGood := by simp [initSt]
+      closed := by intro id hid; simp [initSt] at hid
+      iterGood := ?_, modGood := by simp [initSt]
+      limits := by intro _; simp [initSt] }
+  intro e he
+  obtain ⟨pe, hpe, hp, rfl⟩ := mem_sortedProposed he
+  exact ⟨good_of_pool hL.1 hpe hp, fun hagg => covers_of_pool hagg hpe⟩
+
+theorem Inv.final (hL : LinksOk v) : Inv v sl cl (txsToCommit v sl cl) := (Inv.init hL).run hL _
+
+end step
+
 end CkbVerif.Selector
